@@ -164,6 +164,8 @@ StreamsManagerBase<MAX_STREAMS> {
     /// Any parked streams are awaken, so they may end as well.
     pub fn cancel_all_streams(&self) {
         let used_streams = unsafe { &* self.used_streams.get() };
+        // the list is rewritten in place, entry by entry, whenever a stream is created or dropped: walk it under the same lock
+        ogre_sync::lock(&self.streams_lock);
         for stream_id in used_streams.iter() {
             vp!("sm.cancelall.read");
             if *stream_id == u32::MAX {
@@ -171,6 +173,7 @@ StreamsManagerBase<MAX_STREAMS> {
             }
             self.cancel_stream(*stream_id);
         }
+        ogre_sync::unlock(&self.streams_lock);
     }
 
     #[inline(always)]
